@@ -148,7 +148,7 @@ func (s chunkfault) largeValues(c *Ctx, r *prng.Rand, text bool) {
 	}
 	c.Count("docs.large-value", 1)
 	for _, prog := range []drive.Program{drive.Full, drive.TopSkip} {
-		base := drive.RunRead(drive.ReadCase{Data: data, Plan: planWhole(), Prog: prog})
+		base := drive.RunRead(drive.ReadCase{KeepSID: true, Data: data, Plan: planWhole(), Prog: prog})
 		c.Steps += int64(base.Reads)
 		if base.Panic != "" || base.Spin {
 			continue
@@ -174,7 +174,7 @@ func (s chunkfault) largeValues(c *Ctx, r *prng.Rand, text bool) {
 			plans = append(plans, p)
 		}
 		for _, p := range plans {
-			rc := drive.ReadCase{Data: data, Plan: p, Prog: prog}
+			rc := drive.ReadCase{KeepSID: true, Data: data, Plan: p, Prog: prog}
 			oc := drive.RunRead(rc)
 			c.Steps += int64(oc.Reads)
 			c.Count("r1.runs", 1)
@@ -186,14 +186,14 @@ func (s chunkfault) largeValues(c *Ctx, r *prng.Rand, text bool) {
 		// (values and final error) must be the same as for whole delivery of the same torn bytes
 		for j := 0; j < 6; j++ {
 			cut := data[:1+r.Intn(len(data)-1)]
-			tb := drive.RunRead(drive.ReadCase{Data: cut, Plan: planWhole(), Prog: prog})
+			tb := drive.RunRead(drive.ReadCase{KeepSID: true, Data: cut, Plan: planWhole(), Prog: prog})
 			if tb.Panic != "" || tb.Spin {
 				continue
 			}
 			for _, rc := range []drive.ReadCase{
-				{Data: cut, Plan: planWhole(), Prog: prog, Seekable: true},
-				{Data: cut, Plan: sim.ReadPlan{Name: "large-chunks", Tail: 4096}, Prog: prog},
-				{Data: cut, Plan: sim.ReadPlan{Name: "large-chunks", Tail: 1000, EOFWithLast: true}, Prog: prog},
+				{KeepSID: true, Data: cut, Plan: planWhole(), Prog: prog, Seekable: true},
+				{KeepSID: true, Data: cut, Plan: sim.ReadPlan{Name: "large-chunks", Tail: 4096}, Prog: prog},
+				{KeepSID: true, Data: cut, Plan: sim.ReadPlan{Name: "large-chunks", Tail: 1000, EOFWithLast: true}, Prog: prog},
 			} {
 				oc := drive.RunRead(rc)
 				c.Steps += int64(oc.Reads)
@@ -214,7 +214,7 @@ func (s chunkfault) largeValues(c *Ctx, r *prng.Rand, text bool) {
 			for v := 0; v < 4; v++ {
 				p := sim.ReadPlan{Name: "large-chunks", Tail: []int{4096, 8192, 70000, 1000}[(k+v)%4]}
 				p.Fault = &sim.ReadFault{At: k, Sticky: v&1 == 1, WithData: v&2 == 2, ErrKind: readErrKinds[(k+v)%3]}
-				rc := drive.ReadCase{Data: data, Plan: p, Prog: prog}
+				rc := drive.ReadCase{KeepSID: true, Data: data, Plan: p, Prog: prog}
 				oc := drive.RunRead(rc)
 				c.Steps += int64(oc.Reads)
 				c.Count("r2.runs", 1)
@@ -273,7 +273,7 @@ func textOrEmpty(format string, data []byte) string {
 }
 
 func (s chunkfault) readSide(c *Ctx, r *prng.Rand, data []byte, marks []render.Mark, prog drive.Program) {
-	base := drive.RunRead(drive.ReadCase{Data: data, Plan: planWhole(), Prog: prog})
+	base := drive.RunRead(drive.ReadCase{KeepSID: true, Data: data, Plan: planWhole(), Prog: prog})
 	c.Steps += int64(base.Reads)
 	if base.Panic != "" || base.Spin {
 		c.Count("read.baseline-panic-or-spin(skipped: C06 matter)", 1)
@@ -337,7 +337,7 @@ func (s chunkfault) readSide(c *Ctx, r *prng.Rand, data []byte, marks []render.M
 	}
 	{
 		// the same bytes from a source that can also seek (bytes.Reader, *os.File): one more way of "all at once"
-		rc := drive.ReadCase{Data: data, Plan: planWhole(), Prog: prog, Seekable: true}
+		rc := drive.ReadCase{KeepSID: true, Data: data, Plan: planWhole(), Prog: prog, Seekable: true}
 		oc := drive.RunRead(rc)
 		c.Steps += int64(oc.Reads)
 		c.Count("r1.runs", 1)
@@ -345,7 +345,7 @@ func (s chunkfault) readSide(c *Ctx, r *prng.Rand, data []byte, marks []render.M
 		s.checkRead(c, rc, oc, baseKey, "R1")
 	}
 	for _, p := range plans {
-		rc := drive.ReadCase{Data: data, Plan: p, Prog: prog}
+		rc := drive.ReadCase{KeepSID: true, Data: data, Plan: p, Prog: prog}
 		oc := drive.RunRead(rc)
 		c.Steps += int64(oc.Reads)
 		c.Count("r1.runs", 1)
@@ -369,7 +369,7 @@ func (s chunkfault) readSide(c *Ctx, r *prng.Rand, data []byte, marks []render.M
 				p = planBytes()
 			}
 			p.Fault = &sim.ReadFault{At: k, Sticky: v&1 == 1, WithData: v&2 == 2, ErrKind: readErrKinds[v/4]}
-			rc := drive.ReadCase{Data: data, Plan: p, Prog: prog}
+			rc := drive.ReadCase{KeepSID: true, Data: data, Plan: p, Prog: prog}
 			oc := drive.RunRead(rc)
 			c.Steps += int64(oc.Reads)
 			c.Count("r2.runs", 1)
@@ -677,7 +677,7 @@ func (s chunkfault) Replay(c *Ctx, caseJSON []byte) error {
 	}
 	switch cs.Kind {
 	case "read":
-		base := drive.RunRead(drive.ReadCase{Data: cs.Read.Data, Plan: planWhole(), Prog: cs.Read.Prog})
+		base := drive.RunRead(drive.ReadCase{KeepSID: true, Data: cs.Read.Data, Plan: planWhole(), Prog: cs.Read.Prog})
 		oc := drive.RunRead(*cs.Read)
 		s.checkRead(c, *cs.Read, oc, base.Key(), "replay")
 	case "write":
